@@ -234,6 +234,23 @@ def calls_through_wrappers(facts, body, is_target, depth=2):
     return out
 
 
+WILD = {"k": "Wild"}
+
+
+def branches(root):
+    """Every branch on a pattern under root, whichever way it is written: yields {scrut, arms: [(pat, body)], node}
+    for `match e {..}` and for `if let P = e {A} else {B}` (arms (P, A), (_, B))."""
+    for n in walk(root):
+        if not isinstance(n, dict):
+            continue
+        if n.get("k") == "Match" and not n.get("src", "").startswith(("TryDesugar", "ForLoopDesugar", "AwaitDesugar")):
+            yield {"scrut": n["scrut"], "arms": [(a["pat"], a["body"]) for a in n["arms"]], "node": n}
+        elif n.get("k") == "If":
+            c = strip(n["cond"])
+            if c.get("k") == "Let":
+                yield {"scrut": c["e"], "arms": [(c["pat"], n["then"]), (WILD, n.get("else") or {"k": "Block", "stmts": []})], "node": n}
+
+
 def exprs_deep(facts, fn, kind=None, depth=2):
     for b in family(facts, fn, depth):
         for n in exprs(b["thir"], kind):
